@@ -10,7 +10,7 @@ from .. import core
 FUNCTIONS = {
     'graph': ['DiGraph.__init__', 'DiGraph.add_node', 'DiGraph.add_edge', 'DiGraph.sources', 'DiGraph.nodes',
               'DiGraph.next', 'DiGraph.edges_iter', 'DiGraph.edges', 'DiGraph.clone', 'DiGraph.get_subgraph',
-              'DiGraph.get_reversed_graph', 'DiGraph.get_reachable_set_from'],
+              'DiGraph.get_reversed_graph', 'DiGraph.get_reachable_set_from', 'DiGraph.get_reachable_set_from(set)'],
 }
 FUNCTIONS['kripke'] = ['Kripke.__init__', 'Kripke.labels', 'Kripke.states', 'Kripke.next', 'Kripke.transitions_iter',
                        'Kripke.transitions', 'Kripke.clone', 'Kripke.get_substructure']
